@@ -136,7 +136,7 @@ def segment(nstr):
     a_cat = st.sampled_from([0, 1, 2, 3])
     a = a_cat.flatmap(lambda c: st.fixed_dictionaries({'c': st.just(c)}, optional={
         'a': st.sampled_from([0, 1, 2, 3]), 'p': st.integers(0, 3), 'sc': st.integers(0, 5), 'st': st.integers(0, 9),
-        'or': (sidx if c == 2 else st.one_of(u, st.binary(max_size=8)))}))
+        'or': (sidx if c == 2 else st.one_of(u, st.binary(max_size=8), st.integers(0, 8), st.integers(100, 150)))}))
     return st.fixed_dictionaries({}, optional={'lp': sidx, 'p': p, 'a': a})
 
 
